@@ -257,7 +257,7 @@ def respond(ctx):
 
 def counter(ctx):
     facts = ctx.facts
-    fn, lv = leaves(ctx, CC + "read")
+    fn, lv = leaves(ctx, CC + "read", lower=True)      # `try_from(n).ok().and_then(|c| count.checked_add(c))`: the closure is part of the path
     n = 0
     for lf in lv:
         rk = ret_kind(lf)
